@@ -105,6 +105,9 @@ def gen_order(rng, base=0, earlier=(), leave=0.8):
 
 
 def gen_scenario(rng):
+    if rng.random() < 0.06:
+        # the stop comes at once: the task that serve_forever() returned is cancelled before it has taken a single step
+        return {"transport": rng.choice(["tcp", "unix"]), "cls": rng.choice(["T", "S"]), "order": [], "nclients": 0, "stop_at_once": True}
     transport = rng.choice(["tcp", "unix"])
     again = rng.random() < 0.35
     order, n = gen_order(rng, leave=0.4 if again else 0.8)
@@ -132,6 +135,12 @@ def gen_scenario(rng):
             rounds[-1].insert(rng.randint(0, len(rounds[-1])), ("stop",))
         sc["rounds"] = rounds
         sc["nclients"] = n
+        sc["restart_at_once"] = rng.random() < 0.35  # the periods but the last are not stopped by the script: cancel and serve again in one go
+        if sc["restart_at_once"]:
+            for o in rounds[:-1]:
+                while ("stop",) in o:
+                    o.remove(("stop",))
+            sc["order"] = rounds[0]
     return sc
 
 
@@ -388,7 +397,16 @@ class World:
             srv = S.UnixControlServer(self.pool, socket_path=self.path)
         if srv.is_serving():
             self.violate(clause, "is_serving() is true before serve_forever()")
-        start = asyncio.ensure_future(srv.serve_forever())
+        if sc.get("stop_at_once"):
+            async def start_and_stop():
+                t = await srv.serve_forever()
+                t.cancel()  # no yield in between
+                return t
+
+            start = asyncio.ensure_future(start_and_stop())
+            self.stopped = True
+        else:
+            start = asyncio.ensure_future(srv.serve_forever())
         await self.settle()
         if not start.done():
             self.violate(clause, "await serve_forever() had not returned at the first quiescence with zero clients")
@@ -406,6 +424,12 @@ class World:
             return None
         task = start.result()
         self.serving_task = task if isinstance(task, asyncio.Task) else None
+        if sc.get("stop_at_once"):
+            self.sit["C19.stopped_at_once." + sc["transport"]] += 1
+            if not isinstance(task, asyncio.Task):
+                self.violate(clause, f"serve_forever() returned {task!r} instead of a task")
+                return None
+            return srv, task
         if not isinstance(task, asyncio.Task) or task.done():
             self.violate(clause, f"serve_forever() returned {task!r} instead of a pending task")
             return None
@@ -416,12 +440,19 @@ class World:
         self.sit["C19.started." + sc["transport"]] += 1
         return srv, task
 
-    async def restart_server(self, srv, old_task):
-        """serve_forever() once more on the same server object (same address)."""
+    async def restart_server(self, srv, old_task, cancel_first=False):
+        """serve_forever() once more on the same server object (same address); with cancel_first the running serving task
+        is cancelled and serve_forever() called again without a yield in between (a restart helper)."""
         clause = "C19.returns_task"
         overlap = not old_task.done()
-        self.sit["C19.restart." + ("earlier_task_pending" if overlap else "earlier_task_done")] += 1
-        start = asyncio.ensure_future(srv.serve_forever())
+        self.sit["C19.restart." + ("at_once" if cancel_first else "earlier_task_pending" if overlap else "earlier_task_done")] += 1
+
+        async def go():
+            if cancel_first:
+                old_task.cancel()
+            return await srv.serve_forever()
+
+        start = asyncio.ensure_future(go())
         await self.settle()
         if not start.done():
             self.violate(clause, "serve_forever() called again on the stopped server: had not returned at the first quiescence")
@@ -460,11 +491,12 @@ class World:
                 if started is not None:
                     self.serving_tasks.append(started[1])
             else:
-                if not self.stopped:
+                at_once = not self.stopped and bool(sc.get("restart_at_once"))
+                if not self.stopped and not at_once:
                     task.cancel()
                     self.stopped = True
                     await self.settle()
-                started = await self.restart_server(srv, task)
+                started = await self.restart_server(srv, task, cancel_first=at_once)
                 if started is None:
                     break
                 self.stopped = False
